@@ -34,8 +34,59 @@ func (c *c18Config) voice(textStates, audioStates map[string]int) *c18Config {
 	return c
 }
 
+func (c *c18Config) revisit(lang2, from string) *c18Config {
+	c.Revisit, c.Lang2, c.RevisitFrom = true, lang2, from
+	return c
+}
+
+func (c *c18Config) tpl(urns []string, trans map[string][]string) *c18Config {
+	c.Tpl = &c18Tpl{URNs: urns, Trans: trans, OnM1: true, OnM2: true}
+	return c
+}
+
+// untranslatedCases: the case arguments are the base ones in every language, so that (with the selector in the base language)
+// every visit of the routers gives the same category and value whatever the contact speaks
+func (c *c18Config) untranslatedCases() *c18Config {
+	c.L0 = c.Base
+	for _, it := range []int{itR1Case1, itR1Case2, itR2Case1} {
+		for _, l := range nonBase(c.Base) {
+			c.States[it][l] = stAbsent
+		}
+	}
+	return c
+}
+
 func c18DirectedConfig(name string) *c18Config {
 	switch name {
+	// histories: the flow changes the contact's language and goes through its items again; what is evaluated again follows the
+	// new chain and the results saved again (same value and category) show the category localized for the new chain
+	case "language-set-by-flow-then-everything-again":
+		return c18Cfg("eng", []string{"spa", "fra"}, "spa", stSame).untranslatedCases().revisit("fra", "n1")
+	case "language-set-by-flow-then-routers-again":
+		c := c18Cfg("eng", []string{"fra", "spa"}, "", stSame).revisit("spa", "r1")
+		c.L0 = "none"
+		return c
+	case "language-set-by-flow-to-one-not-allowed":
+		return c18Cfg("kin", []string{"fra", "spa"}, "spa", stSame).untranslatedCases().revisit("eng", "n1")
+	case "language-set-by-flow-before-environment-refresh":
+		c := c18Cfg("eng", []string{"spa", "fra"}, "fra", stSame).untranslatedCases().revisit("spa", "n1")
+		c.Phase2, c.Allowed2 = true, []string{"fra", "spa"}
+		return c
+	case "language-set-by-flow-voice":
+		return c18Cfg("eng", []string{"spa", "fra"}, "spa", stSame).untranslatedCases().revisit("fra", "n1").voice(map[string]int{"spa": stSame, "fra": stSame}, map[string]int{"fra": stSame})
+	// several destinations: a template translated for some of the contact's channels only, in a language that is not the one
+	// the flow's text comes from
+	case "template-for-first-destination-only":
+		return c18Cfg("eng", []string{"spa", "fra"}, "spa", stSame).tpl([]string{"wa", "tel"}, map[string][]string{"wa": {"fra"}})
+	case "template-between-flow-texts":
+		return c18Cfg("eng", []string{"fra"}, "", stSame).tpl([]string{"tel", "wa", "tw"}, map[string][]string{"wa": {"kin-RW"}})
+	case "template-before-text-less-message":
+		return c18Cfg("eng", []string{"spa"}, "spa", stAbsent).set(itM1Text, "spa", stVariant).set(itM2Text, "spa", stVariant).set(itM2Att, "spa", stSame).set(itM2QR, "spa", stSame).
+			tpl([]string{"tel", "tw"}, map[string][]string{"tel": {"fra", "kin"}})
+	case "template-for-every-destination-but-the-last":
+		return c18Cfg("spa", []string{"kin", "eng"}, "eng", stSame).tpl([]string{"tw", "wa", "tel"}, map[string][]string{"tw": {"eng-US", "fra"}, "wa": {"fra-RW"}})
+	case "template-and-language-set-by-flow":
+		return c18Cfg("eng", []string{"spa", "fra"}, "spa", stSame).untranslatedCases().revisit("fra", "n1").tpl([]string{"wa", "tel", "tw"}, map[string][]string{"wa": {"spa"}, "tel": {"eng"}})
 	// the localization has a section for the flow's own base language: never used, wherever the base language stands in the chain
 	case "base-section-contact-is-base":
 		c := c18Cfg("eng", []string{"spa", "eng"}, "eng", stSame)
